@@ -156,60 +156,83 @@ pub trait DynIter {
     fn size_hint(&self) -> (usize, Option<usize>);
     /// Consumes the rest through `Iterator::fold` (internal iteration: the path `for_each`, `sum`, `count` take).
     fn fold_rest(self: Box<Self>) -> Vec<u128>;
+    /// `Iterator::nth(k)`
+    fn nth(&mut self, k: usize) -> Option<u128>;
+    /// `DoubleEndedIterator::nth_back(k)`; outer `None` = not double ended
+    fn nth_back(&mut self, k: usize) -> Option<Option<u128>>;
+    /// `Iterator::count()` of the rest
+    fn count_rest(self: Box<Self>) -> usize;
+    /// `Iterator::last()` of the rest
+    fn last_rest(self: Box<Self>) -> Option<u128>;
 }
 
+// The wrappers hold the library's iterator itself (not a `Map` over it), so that every method the iterator type
+// overrides (nth, nth_back, fold, count, last, size_hint, len) is the one that gets called.
 macro_rules! dyn_iter_common {
     () => {
+        fn next(&mut self) -> Option<u128> {
+            self.0.next().map(self.1)
+        }
         fn size_hint(&self) -> (usize, Option<usize>) {
             self.0.size_hint()
         }
         fn fold_rest(self: Box<Self>) -> Vec<u128> {
+            let conv = self.1;
             self.0.fold(Vec::new(), |mut v, x| {
-                v.push(x);
+                v.push(conv(x));
                 v
             })
+        }
+        fn nth(&mut self, k: usize) -> Option<u128> {
+            self.0.nth(k).map(self.1)
+        }
+        fn count_rest(self: Box<Self>) -> usize {
+            self.0.count()
+        }
+        fn last_rest(self: Box<Self>) -> Option<u128> {
+            self.0.last().map(self.1)
         }
     };
 }
 
-struct FwdOnly<I>(I);
-impl<I: Iterator<Item = u128>> DynIter for FwdOnly<I> {
-    fn next(&mut self) -> Option<u128> {
-        self.0.next()
-    }
+struct FwdOnly<I: Iterator>(I, fn(I::Item) -> u128);
+impl<I: Iterator> DynIter for FwdOnly<I> {
     fn next_back(&mut self) -> Option<Option<u128>> {
         None
     }
     fn len(&self) -> Option<usize> {
         None
     }
+    fn nth_back(&mut self, _k: usize) -> Option<Option<u128>> {
+        None
+    }
     dyn_iter_common!();
 }
 
-struct FwdExact<I>(I);
-impl<I: Iterator<Item = u128> + ExactSizeIterator> DynIter for FwdExact<I> {
-    fn next(&mut self) -> Option<u128> {
-        self.0.next()
-    }
+struct FwdExact<I: Iterator>(I, fn(I::Item) -> u128);
+impl<I: Iterator + ExactSizeIterator> DynIter for FwdExact<I> {
     fn next_back(&mut self) -> Option<Option<u128>> {
         None
     }
     fn len(&self) -> Option<usize> {
         Some(self.0.len())
     }
+    fn nth_back(&mut self, _k: usize) -> Option<Option<u128>> {
+        None
+    }
     dyn_iter_common!();
 }
 
-struct Full<I>(I);
-impl<I: Iterator<Item = u128> + ExactSizeIterator + DoubleEndedIterator> DynIter for Full<I> {
-    fn next(&mut self) -> Option<u128> {
-        self.0.next()
-    }
+struct Full<I: Iterator>(I, fn(I::Item) -> u128);
+impl<I: Iterator + ExactSizeIterator + DoubleEndedIterator> DynIter for Full<I> {
     fn next_back(&mut self) -> Option<Option<u128>> {
-        Some(self.0.next_back())
+        Some(self.0.next_back().map(self.1))
     }
     fn len(&self) -> Option<usize> {
         Some(self.0.len())
+    }
+    fn nth_back(&mut self, k: usize) -> Option<Option<u128>> {
+        Some(self.0.nth_back(k).map(self.1))
     }
     dyn_iter_common!();
 }
@@ -395,13 +418,13 @@ macro_rules! tree_ds {
             common_ds!();
             fn iter_box<'a>(&'a self, kind: IterKind) -> Option<Box<dyn DynIter + 'a>> {
                 match kind {
-                    IterKind::Iter => Some(Box::new(Full(self.0.iter().map(conv_t)))),
-                    IterKind::RefIntoIter => Some(Box::new(Full((&self.0).into_iter().map(conv_t)))),
+                    IterKind::Iter => Some(Box::new(Full(self.0.iter(), conv_t))),
+                    IterKind::RefIntoIter => Some(Box::new(Full((&self.0).into_iter(), conv_t))),
                     _ => None,
                 }
             }
             fn into_iter_box(self: Box<Self>) -> Option<Box<dyn DynIter>> {
-                Some(Box::new(Full(self.0.into_iter().map(conv_t))))
+                Some(Box::new(Full(self.0.into_iter(), conv_t)))
             }
         }
     };
@@ -597,10 +620,10 @@ pub fn default_tree(alias: Alias, ty: Ty) -> Box<dyn DynDs> {
 // ------------------------------------------------------------------------------------------------ bit vectors
 
 fn ones_from<'a>(it: qwt::bitvector::BitVectorBitPositionsIter<'a, true>) -> Box<dyn DynIter + 'a> {
-    Box::new(FwdOnly(it.map(|p| p as u128)))
+    Box::new(FwdOnly(it, |p| p as u128))
 }
 fn zeros_from<'a>(it: qwt::bitvector::BitVectorBitPositionsIter<'a, false>) -> Box<dyn DynIter + 'a> {
-    Box::new(FwdOnly(it.map(|p| p as u128)))
+    Box::new(FwdOnly(it, |p| p as u128))
 }
 
 macro_rules! bv_common_answers {
@@ -647,8 +670,8 @@ impl DynDs for BvDs {
     common_ds!();
     fn iter_box<'a>(&'a self, kind: IterKind) -> Option<Box<dyn DynIter + 'a>> {
         match kind {
-            IterKind::Iter => Some(Box::new(FwdExact(self.0.iter().map(|b| b as u128)))),
-            IterKind::RefIntoIter => Some(Box::new(FwdExact((&self.0).into_iter().map(|b| b as u128)))),
+            IterKind::Iter => Some(Box::new(FwdExact(self.0.iter(), |b| b as u128))),
+            IterKind::RefIntoIter => Some(Box::new(FwdExact((&self.0).into_iter(), |b| b as u128))),
             IterKind::Ones => Some(ones_from(self.0.ones())),
             IterKind::Zeros => Some(zeros_from(self.0.zeros())),
             IterKind::OnesFrom(p) => Some(ones_from(self.0.ones_with_pos(p))),
@@ -657,7 +680,7 @@ impl DynDs for BvDs {
         }
     }
     fn into_iter_box(self: Box<Self>) -> Option<Box<dyn DynIter>> {
-        Some(Box::new(FwdExact(self.0.into_iter().map(|b| b as u128))))
+        Some(Box::new(FwdExact(self.0.into_iter(), |b| b as u128)))
     }
 }
 
@@ -683,7 +706,7 @@ impl DynDs for BvmDs {
     common_ds!();
     fn iter_box<'a>(&'a self, kind: IterKind) -> Option<Box<dyn DynIter + 'a>> {
         match kind {
-            IterKind::Iter => Some(Box::new(FwdExact(self.0.iter().map(|b| b as u128)))),
+            IterKind::Iter => Some(Box::new(FwdExact(self.0.iter(), |b| b as u128))),
             IterKind::Ones => Some(ones_from(self.0.ones())),
             IterKind::Zeros => Some(zeros_from(self.0.zeros())),
             IterKind::OnesFrom(p) => Some(ones_from(self.0.ones_with_pos(p))),
@@ -692,7 +715,7 @@ impl DynDs for BvmDs {
         }
     }
     fn into_iter_box(self: Box<Self>) -> Option<Box<dyn DynIter>> {
-        Some(Box::new(FwdExact(self.0.into_iter().map(|b| b as u128))))
+        Some(Box::new(FwdExact(self.0.into_iter(), |b| b as u128)))
     }
 }
 
@@ -798,7 +821,7 @@ impl<const S0: bool> DynDs for DaDs<S0> {
     common_ds!();
     fn iter_box<'a>(&'a self, kind: IterKind) -> Option<Box<dyn DynIter + 'a>> {
         match kind {
-            IterKind::Iter => Some(Box::new(FwdExact(self.0.iter().map(|b| b as u128)))),
+            IterKind::Iter => Some(Box::new(FwdExact(self.0.iter(), |b| b as u128))),
             IterKind::Ones => Some(ones_from(self.0.ones())),
             IterKind::Zeros => Some(zeros_from(self.0.zeros())),
             IterKind::OnesFrom(p) => Some(ones_from(self.0.ones_with_pos(p))),
@@ -845,13 +868,13 @@ impl DynDs for QvDs {
     common_ds!();
     fn iter_box<'a>(&'a self, kind: IterKind) -> Option<Box<dyn DynIter + 'a>> {
         match kind {
-            IterKind::Iter => Some(Box::new(FwdOnly(self.0.iter().map(|b| b as u128)))),
-            IterKind::RefIntoIter => Some(Box::new(FwdOnly((&self.0).into_iter().map(|b| b as u128)))),
+            IterKind::Iter => Some(Box::new(FwdOnly(self.0.iter(), |b| b as u128))),
+            IterKind::RefIntoIter => Some(Box::new(FwdOnly((&self.0).into_iter(), |b| b as u128))),
             _ => None,
         }
     }
     fn into_iter_box(self: Box<Self>) -> Option<Box<dyn DynIter>> {
-        Some(Box::new(FwdOnly(self.0.into_iter().map(|b| b as u128))))
+        Some(Box::new(FwdOnly(self.0.into_iter(), |b| b as u128)))
     }
 }
 
@@ -894,13 +917,13 @@ macro_rules! rsq_ds {
             common_ds!();
             fn iter_box<'a>(&'a self, kind: IterKind) -> Option<Box<dyn DynIter + 'a>> {
                 match kind {
-                    IterKind::Iter => Some(Box::new(FwdOnly(self.0.iter().map(|b| b as u128)))),
-                    IterKind::RefIntoIter => Some(Box::new(FwdOnly((&self.0).into_iter().map(|b| b as u128)))),
+                    IterKind::Iter => Some(Box::new(FwdOnly(self.0.iter(), |b| b as u128))),
+                    IterKind::RefIntoIter => Some(Box::new(FwdOnly((&self.0).into_iter(), |b| b as u128))),
                     _ => None,
                 }
             }
             fn into_iter_box(self: Box<Self>) -> Option<Box<dyn DynIter>> {
-                Some(Box::new(FwdOnly(self.0.into_iter().map(|b| b as u128))))
+                Some(Box::new(FwdOnly(self.0.into_iter(), |b| b as u128)))
             }
         }
     };
